@@ -80,6 +80,9 @@ struct Cfg {
 #[derive(Clone, Debug)]
 struct Case {
     backend: Backend,
+    /// object-store backend only: initial levels are written with the public
+    /// `save_chunk_metadata` instead of complete_compaction chains (text "s3d")
+    direct: bool,
     cfgs: Vec<Cfg>, // cycle i runs under cfgs[min(i, len-1)]
     chunks: Vec<Chunk>,
 }
@@ -91,11 +94,12 @@ fn encode_with(case: &Case, base: i64) -> String {
         .iter()
         .map(|c| format!("{}:{}:{}:{}:{}:{}", c.id, c.level, c.min - base, c.max - base, c.rows, c.size))
         .collect();
-    format!("{}|{}|{}", case.backend.name(), cfgs.join(";"), chunks.join(","))
+    format!("{}{}|{}|{}", case.backend.name(), if case.direct { "d" } else { "" }, cfgs.join(";"), chunks.join(","))
 }
 fn decode(line: &str) -> Case {
     let parts: Vec<&str> = line.split('|').collect();
-    let backend = if parts[0] == "s3" { Backend::S3 } else { Backend::Local };
+    let backend = if parts[0].starts_with("s3") { Backend::S3 } else { Backend::Local };
+    let direct = parts[0] == "s3d";
     let cfgs = parts[1]
         .split(';')
         .filter(|s| !s.is_empty())
@@ -121,7 +125,7 @@ fn decode(line: &str) -> Case {
             }
         })
         .collect();
-    Case { backend, cfgs, chunks }
+    Case { backend, direct, cfgs, chunks }
 }
 
 // ------------------------------------------------------------- setup ops ----
@@ -270,6 +274,8 @@ struct RunResult {
     panics: usize,
     tie_search_used: bool,
     initial_measure: usize,
+    /// merged_at[l] = number of merges whose sources were at level l
+    merged_at: BTreeMap<u32, u64>,
 }
 
 fn permutations(items: &[u32]) -> Vec<Vec<u32>> {
@@ -356,11 +362,19 @@ fn run_case(rt: &tokio::runtime::Runtime, case: &Case, model: &mut Model) -> Run
         panics: 0,
         tie_search_used: false,
         initial_measure: 0,
+        merged_at: BTreeMap::new(),
     };
 
     // ---- setup: the catalog history, on the implementation and on the model
     let ops = setup_ops(case);
+    let direct = match (&inner, case.direct) {
+        (Inner::S3(c), true) => Some(c.clone()),
+        _ => None,
+    };
     for o in &ops {
+        if direct.is_some() && !matches!(o, Op::R { real: true, .. }) {
+            continue; // levels are written below, no throw-away chunks
+        }
         match o {
             Op::R { id, min, max, rows, size, real } => {
                 let p = path_of(*id, *real);
@@ -378,6 +392,15 @@ fn run_case(rt: &tokio::runtime::Runtime, case: &Case, model: &mut Model) -> Run
                 rt.block_on(inner.client().complete_compaction(&s, &t)).expect("setup complete");
             }
         }
+    }
+    if let Some(c) = &direct {
+        let mut all = rt.block_on(c.load_chunk_metadata()).expect("load chunk metadata");
+        for ch in &case.chunks {
+            if let Some(e) = all.get_mut(&path_of(ch.id, true)) {
+                e.level = ch.level;
+            }
+        }
+        rt.block_on(c.save_chunk_metadata(&all)).expect("save chunk metadata");
     }
     let snap0 = rt.block_on(inner.snapshot());
     it.next = snap0.keys().map(|p| it.id(p)).max().map(|m| m + 1).unwrap_or(0);
@@ -527,6 +550,9 @@ fn run_case(rt: &tokio::runtime::Runtime, case: &Case, model: &mut Model) -> Run
                     }
                     // level rule, directly on the implementation
                     let src_levels: Vec<u32> = srcs.iter().filter_map(|p| cur_levels.get(p).cloned().flatten()).collect();
+                    if let Some(m) = src_levels.iter().max() {
+                        *res.merged_at.entry(*m).or_insert(0) += 1;
+                    }
                     let want = src_levels.iter().max().map(|m| m + 1);
                     if src_levels.len() != srcs.len() || want != *new_level {
                         res.oracle_failures.push(format!(
@@ -727,7 +753,7 @@ fn gen_cfg(rng: &mut Rng, report: &mut Report) -> Cfg {
     };
     let l1 = pick(rng);
     let l2 = pick(rng);
-    let maxlv = *rng.pick(&[0u64, 1, 2, 2, 3, 3, 4, 5]);
+    let maxlv = *rng.pick(&[0u64, 1, 2, 3, 4, 5, 6, 6, 7, 7, 8, 8]);
     report.bump(&format!("cfg.threshold.{}", if thr <= 1 { "le1" } else { "ge2" }));
     report.bump(&format!("cfg.max_levels.{}", maxlv));
     if l1 == 0 || l2 == 0 {
@@ -756,6 +782,12 @@ fn gen_case(rng: &mut Rng, base: i64, report: &mut Report) -> Case {
     let size_pal: [u64; 9] = [0, 1, 100, 400, 900, 1500, 2500, 5000, 30_000];
     let mut chunks = Vec::new();
     let mut ties = false;
+    // one case in three concentrates chunks on one (often high) level so that
+    // merges happen at every level, also above the configured limit
+    let focus: Option<u32> = if rng.chance(1, 3) { Some(rng.range_usize(1, 8) as u32) } else { None };
+    if focus.is_some() {
+        report.bump("case.focus_level");
+    }
     for i in 0..n {
         let hour = rng.below(hours as u64) as i64;
         let min = if rng.chance(3, 5) {
@@ -773,7 +805,16 @@ fn gen_case(rng: &mut Rng, base: i64, report: &mut Report) -> Case {
                 _ => min + rng.range_i64(1, H / 2),
             }
         };
-        let level = if rng.chance(7, 10) { 0 } else { rng.range_usize(1, 3) as u32 };
+        let level = match focus {
+            Some(l) if rng.chance(3, 5) => l,
+            _ => {
+                if rng.chance(11, 20) {
+                    0
+                } else {
+                    rng.range_usize(1, 7) as u32
+                }
+            }
+        };
         let size = if rng.chance(1, 40) { 1u64 << 63 } else { *rng.pick(&size_pal) };
         if chunks.iter().any(|c: &Chunk| c.min == min && c.level == level) {
             ties = true;
@@ -791,7 +832,11 @@ fn gen_case(rng: &mut Rng, base: i64, report: &mut Report) -> Case {
     }
     report.bump(&format!("backend.{}", backend.name()));
     report.bump(&format!("case.chunks.{}", if n <= 1 { "0-1" } else if n <= 6 { "2-6" } else { "7-12" }));
-    Case { backend, cfgs, chunks }
+    let direct = backend == Backend::S3 && rng.chance(1, 2);
+    if direct {
+        report.bump("case.s3_levels_written_directly");
+    }
+    Case { backend, direct, cfgs, chunks }
 }
 
 /// Proof-derived corner cases that always run first (both backends each).
@@ -799,36 +844,50 @@ fn corpus(base: i64) -> Vec<Case> {
     let c = |id: u32, level: u32, min: i64, size: u64| Chunk { id: FIRST_REAL_ID + id, level, min: base + min, max: base + min + 10, rows: 2, size };
     let cfg = |thr, l1, l2, maxlv| Cfg { thr, l1, l2, maxlv };
     let mut out = Vec::new();
-    for b in [Backend::S3, Backend::Local] {
+    for (b, direct) in [(Backend::S3, false), (Backend::S3, true), (Backend::Local, false)] {
         // threshold 0 / 1: single level-0 chunks are rewritten once, then nothing is selectable
-        out.push(Case { backend: b, cfgs: vec![cfg(0, 1 << 40, 1 << 40, 3)], chunks: vec![c(0, 0, 0, 100)] });
-        out.push(Case { backend: b, cfgs: vec![cfg(1, 1500, 6000, 4)], chunks: vec![c(0, 0, 0, 100), c(1, 0, H, 100), c(2, 0, 2 * H, 100)] });
+        out.push(Case { backend: b, direct, cfgs: vec![cfg(0, 1 << 40, 1 << 40, 3)], chunks: vec![c(0, 0, 0, 100)] });
+        out.push(Case { backend: b, direct, cfgs: vec![cfg(1, 1500, 6000, 4)], chunks: vec![c(0, 0, 0, 100), c(1, 0, H, 100), c(2, 0, 2 * H, 100)] });
         // one hour bucket, boundary neighbours, threshold exactly met / missed by one
-        out.push(Case { backend: b, cfgs: vec![cfg(3, 1500, 6000, 3)], chunks: vec![c(0, 0, 0, 100), c(1, 0, H - 11, 100), c(2, 0, H / 2, 100), c(3, 0, H, 100), c(4, 0, H + 1, 100)] });
+        out.push(Case { backend: b, direct, cfgs: vec![cfg(3, 1500, 6000, 3)], chunks: vec![c(0, 0, 0, 100), c(1, 0, H - 11, 100), c(2, 0, H / 2, 100), c(3, 0, H, 100), c(4, 0, H + 1, 100)] });
         // target size 0: the object-store flavour closes every group at one member, the in-memory one pairs
-        out.push(Case { backend: b, cfgs: vec![cfg(2, 0, 0, 3)], chunks: vec![c(0, 1, 0, 100), c(1, 1, 10, 100), c(2, 1, 20, 100), c(3, 2, 30, 5), c(4, 2, 40, 5)] });
+        out.push(Case { backend: b, direct, cfgs: vec![cfg(2, 0, 0, 3)], chunks: vec![c(0, 1, 0, 100), c(1, 1, 10, 100), c(2, 1, 20, 100), c(3, 2, 30, 5), c(4, 2, 40, 5)] });
         // a big first chunk: in-memory keeps the one-member group open, object-store closes it
-        out.push(Case { backend: b, cfgs: vec![cfg(2, 1000, 1000, 3)], chunks: vec![c(0, 1, 0, 5000), c(1, 1, 10, 1), c(2, 1, 20, 1), c(3, 1, 30, 5000)] });
+        out.push(Case { backend: b, direct, cfgs: vec![cfg(2, 1000, 1000, 3)], chunks: vec![c(0, 1, 0, 5000), c(1, 1, 10, 1), c(2, 1, 20, 1), c(3, 1, 30, 5000)] });
         // trailing group: kept by the object store, dropped in memory
-        out.push(Case { backend: b, cfgs: vec![cfg(2, 1 << 40, 1 << 40, 2)], chunks: vec![c(0, 1, 0, 10), c(1, 1, 10, 10), c(2, 1, 20, 10)] });
+        out.push(Case { backend: b, direct, cfgs: vec![cfg(2, 1 << 40, 1 << 40, 2)], chunks: vec![c(0, 1, 0, 10), c(1, 1, 10, 10), c(2, 1, 20, 10)] });
         // equal min_timestamps inside one level: the grouping depends on the hash order
-        out.push(Case { backend: b, cfgs: vec![cfg(2, 1000, 1000, 2)], chunks: vec![c(0, 1, 0, 1000), c(1, 1, 0, 1), c(2, 1, 0, 1), c(3, 1, 0, 1000)] });
+        out.push(Case { backend: b, direct, cfgs: vec![cfg(2, 1000, 1000, 2)], chunks: vec![c(0, 1, 0, 1000), c(1, 1, 0, 1), c(2, 1, 0, 1), c(3, 1, 0, 1000)] });
         // two chunks with one min_timestamp: [small, big] closes a pair, [big, small] leaves the
         // in-memory selection empty-handed (hash order decides; the unobservable order is searched)
-        out.push(Case { backend: b, cfgs: vec![cfg(2, 50, 50, 2)], chunks: vec![c(0, 1, 7, 1), c(1, 1, 7, 100)] });
-        out.push(Case { backend: b, cfgs: vec![cfg(2, 50, 50, 2)], chunks: vec![c(0, 1, 7, 1), c(1, 1, 7, 100), c(2, 1, 7, 1), c(3, 1, 7, 100), c(4, 1, 7, 30)] });
+        out.push(Case { backend: b, direct, cfgs: vec![cfg(2, 50, 50, 2)], chunks: vec![c(0, 1, 7, 1), c(1, 1, 7, 100)] });
+        out.push(Case { backend: b, direct, cfgs: vec![cfg(2, 50, 50, 2)], chunks: vec![c(0, 1, 7, 1), c(1, 1, 7, 100), c(2, 1, 7, 1), c(3, 1, 7, 100), c(4, 1, 7, 30)] });
         // levels above the limit are never touched; level max_levels is still compacted
-        out.push(Case { backend: b, cfgs: vec![cfg(2, 0, 0, 1)], chunks: vec![c(0, 1, 0, 1), c(1, 1, 10, 1), c(2, 2, 20, 1), c(3, 2, 30, 1), c(4, 3, 40, 1), c(5, 3, 50, 1)] });
+        out.push(Case { backend: b, direct, cfgs: vec![cfg(2, 0, 0, 1)], chunks: vec![c(0, 1, 0, 1), c(1, 1, 10, 1), c(2, 2, 20, 1), c(3, 2, 30, 1), c(4, 3, 40, 1), c(5, 3, 50, 1)] });
         // level >= 3 target = l2 * 5 overflows usize: the cycle panics (debug build) once it gets there
-        out.push(Case { backend: b, cfgs: vec![cfg(2, 1000, u64::MAX / 5 + 1, 3)], chunks: vec![c(0, 0, 0, 100), c(1, 0, 20, 100), c(2, 3, 40, 100)] });
+        out.push(Case { backend: b, direct, cfgs: vec![cfg(2, 1000, u64::MAX / 5 + 1, 3)], chunks: vec![c(0, 0, 0, 100), c(1, 0, 20, 100), c(2, 3, 40, 100)] });
         // accumulated size overflows usize
-        out.push(Case { backend: b, cfgs: vec![cfg(2, u64::MAX, u64::MAX, 2)], chunks: vec![c(0, 1, 0, 1 << 63), c(1, 1, 10, 1 << 63), c(2, 1, 20, 5)] });
+        out.push(Case { backend: b, direct, cfgs: vec![cfg(2, u64::MAX, u64::MAX, 2)], chunks: vec![c(0, 1, 0, 1 << 63), c(1, 1, 10, 1 << 63), c(2, 1, 20, 5)] });
         // configuration change after the first fixpoint: a lower threshold makes more groups eligible
-        out.push(Case { backend: b, cfgs: vec![cfg(15, 1500, 6000, 3), cfg(15, 1500, 6000, 3), cfg(2, 1500, 6000, 3)], chunks: vec![c(0, 0, 0, 100), c(1, 0, 5, 100), c(2, 0, H, 100), c(3, 0, H + 5, 100)] });
+        out.push(Case { backend: b, direct, cfgs: vec![cfg(15, 1500, 6000, 3), cfg(15, 1500, 6000, 3), cfg(2, 1500, 6000, 3)], chunks: vec![c(0, 0, 0, 100), c(1, 0, 5, 100), c(2, 0, H, 100), c(3, 0, H + 5, 100)] });
         // cascade through all levels in one cycle
-        out.push(Case { backend: b, cfgs: vec![cfg(2, 0, 0, 5)], chunks: vec![c(0, 0, 0, 100), c(1, 0, 5, 100), c(2, 0, H, 100), c(3, 0, H + 5, 100)] });
+        out.push(Case { backend: b, direct, cfgs: vec![cfg(2, 0, 0, 5)], chunks: vec![c(0, 0, 0, 100), c(1, 0, 5, 100), c(2, 0, H, 100), c(3, 0, H + 5, 100)] });
+        // a merge at every level 0..7 (max_levels 8): two chunks of 10 bytes against a target of 15
+        // (levels >= 3 use l2 * 5 = 15); the result sits alone one level up
+        for l in 0..=7u32 {
+            let (l1, l2) = if l >= 3 { (15, 3) } else { (15, 15) };
+            out.push(Case { backend: b, direct, cfgs: vec![cfg(2, l1, l2, 8)], chunks: vec![c(0, l, 0, 10), c(1, l, 20, 10)] });
+        }
+        // two level-5 chunks next to genuine level-4 and level-6 chunks, max_levels 6, small target:
+        // the level-5 pair must come out at level 6 (never at or below 5) and then meet the level-6 pair
+        out.push(Case { backend: b, direct, cfgs: vec![cfg(2, 15, 3, 6)], chunks: vec![c(0, 5, 0, 10), c(1, 5, 20, 10), c(2, 4, 40, 10), c(3, 4, 60, 10), c(4, 6, 80, 10)] });
+        out.push(Case { backend: b, direct, cfgs: vec![cfg(2, 15, 3, 6)], chunks: vec![c(0, 5, 0, 10), c(1, 5, 20, 10)] });
+        // a ladder: one pair on every level 0..7, everything cascades upwards in one cycle
+        out.push(Case { backend: b, direct, cfgs: vec![cfg(2, 15, 3, 8)], chunks: (0..8u32).flat_map(|l| vec![c(2 * l, l, 100 * l as i64, 10), c(2 * l + 1, l, 100 * l as i64 + 50, 10)]).collect() });
+        // chunks above the level limit stay where they are
+        out.push(Case { backend: b, direct, cfgs: vec![cfg(2, 1, 1, 4)], chunks: vec![c(0, 5, 0, 10), c(1, 5, 20, 10), c(2, 7, 40, 10), c(3, 7, 60, 10), c(4, 4, 80, 10), c(5, 4, 90, 10)] });
         // empty catalog
-        out.push(Case { backend: b, cfgs: vec![cfg(0, 0, 0, 2)], chunks: vec![] });
+        out.push(Case { backend: b, direct, cfgs: vec![cfg(0, 0, 0, 2)], chunks: vec![] });
     }
     out
 }
@@ -887,6 +946,9 @@ fn main() {
         if r.panics > 0 {
             report.bump("run.cycle_panicked_on_usize_overflow");
         }
+        for (l, k) in &r.merged_at {
+            report.bump_by(&format!("merge.{}.source_level.{}", case.backend.name(), l), *k);
+        }
         if r.tie_search_used {
             report.bump("run.hash_order_among_equal_min_searched");
         }
@@ -901,10 +963,10 @@ fn main() {
 
         if let Some(step) = &r.mismatch {
             let shrunk_chunks = ddmin(&case.chunks, &mut |cand: &[Chunk]| {
-                let c2 = Case { backend: case.backend, cfgs: case.cfgs.clone(), chunks: cand.to_vec() };
+                let c2 = Case { backend: case.backend, direct: case.direct, cfgs: case.cfgs.clone(), chunks: cand.to_vec() };
                 run_case(&rt, &c2, &mut model).mismatch.is_some()
             });
-            let c2 = Case { backend: case.backend, cfgs: case.cfgs.clone(), chunks: shrunk_chunks };
+            let c2 = Case { backend: case.backend, direct: case.direct, cfgs: case.cfgs.clone(), chunks: shrunk_chunks };
             let r2 = run_case(&rt, &c2, &mut model);
             let (s_impl, s_model) = r2.mismatch_step.clone().unwrap_or_else(|| r2.steps.first().map(|(_, i, m)| (i.clone(), m.clone())).unwrap_or_default());
             let (o_impl, o_model) = r.mismatch_step.clone().unwrap_or_else(|| r.steps.first().map(|(_, i, m)| (i.clone(), m.clone())).unwrap_or_default());
@@ -917,12 +979,12 @@ fn main() {
         }
         if !bad.is_empty() {
             let shrunk_chunks = ddmin(&case.chunks, &mut |cand: &[Chunk]| {
-                let c2 = Case { backend: case.backend, cfgs: case.cfgs.clone(), chunks: cand.to_vec() };
+                let c2 = Case { backend: case.backend, direct: case.direct, cfgs: case.cfgs.clone(), chunks: cand.to_vec() };
                 let mut nomodel = Model::spawn("");
                 let rr = run_case(&rt, &c2, &mut nomodel);
                 !rr.oracle_failures.is_empty() || (rr.panics > 0 && !overflow_possible(&c2))
             });
-            let c2 = Case { backend: case.backend, cfgs: case.cfgs.clone(), chunks: shrunk_chunks };
+            let c2 = Case { backend: case.backend, direct: case.direct, cfgs: case.cfgs.clone(), chunks: shrunk_chunks };
             report.oracle_violation("", &summarize(&bad), json!({"case": encode_with(&c2, base), "original": key}));
         }
     }
